@@ -43,6 +43,39 @@ pub fn run(out: &mut Out, seed: u64, tier: &str) {
         };
         if m.n() <= 24 { mols.push(m); }
     }
+    // stiff close contacts: one atom of a library / random molecule pushed towards a non-neighbouring atom until they are
+    // 0.5-0.7 A apart (still inside the property's domain): runs that need the step length halved more than once
+    let n_contact = if tier == "thorough" { 400 } else { 40 };
+    let lib = library();
+    for r in 0..n_contact {
+        let base = if r % 2 == 0 { lib[rng.below(lib.len())].clone() } else { random_mol(&mut rng) };
+        if base.n() < 4 || base.n() > 20 { continue; }
+        let (a, b) = (rng.below(base.n()), rng.below(base.n()));
+        if a == b { continue; }
+        let d0 = { let (p, q) = (base.xs[a], base.xs[b]); ((p[0] - q[0]).powi(2) + (p[1] - q[1]).powi(2) + (p[2] - q[2]).powi(2)).sqrt() };
+        if d0 < 1.7 { continue; }                       // bonded or geminal: leave alone
+        let target = rng.range(0.5, 0.7);
+        let mut c = base.clone();
+        for k in 0..3 { c.xs[a][k] = base.xs[b][k] + (base.xs[a][k] - base.xs[b][k]) * target / d0; }
+        c.name = format!("{}+contact{}-{}", base.name, a, b);
+        if c.min_distance() >= 0.5 { mols.push(c); }
+    }
+    // the same, systematically: in every library molecule each hydrogen pushed across the molecule onto a hydrogen more than
+    // 4 A away (0.55 A from it) — e.g. benzene's para pairs, the stiffest contacts a small molecule offers
+    for base in lib.iter() {
+        if base.n() > 16 { continue; }
+        let hs: Vec<usize> = (0..base.n()).filter(|i| base.zs[*i] == 1).collect();
+        let mut made = 0;
+        for &a in hs.iter() { for &b in hs.iter() {
+            if a == b || made >= (if tier == "thorough" { 12 } else { 4 }) { continue; }
+            let d0 = { let (p, q) = (base.xs[a], base.xs[b]); ((p[0] - q[0]).powi(2) + (p[1] - q[1]).powi(2) + (p[2] - q[2]).powi(2)).sqrt() };
+            if d0 < 4.0 { continue; }
+            let mut c = base.clone();
+            for k in 0..3 { c.xs[a][k] = base.xs[b][k] + (base.xs[a][k] - base.xs[b][k]) * 0.55 / d0; }
+            c.name = format!("{}+H{}onto{}", base.name, a, b);
+            if c.min_distance() >= 0.5 { mols.push(c); made += 1; }
+        } }
+    }
     let (mut n, mut n_dom, mut moved_n, mut worst_rise) = (0usize, 0usize, 0usize, 0.0f64);
     for m in mols.iter() {
         for kind in ["uff", "rb"] {
